@@ -239,28 +239,7 @@ func rulesC05(e *Engine, r *Report) {
 				"the descriptor compared with the record is not built from the queried part: "+strings.Join(vals, " | "), 1, vals...)
 		}
 	}
-	if fn := needFn(e, r, "R05.4", "stage.(*Stage).Received"); fn != nil {
-		// the count stops at the first part that is not on record
-		cls := labeler(C("!call(stage.(*Stage).partReceived)(p0, §)", "miss"), C("call(stage.(*Stage).partReceived)(p0, §)", "hit"))
-		incs := 0
-		Instrs(fn, func(in ssa.Instruction) {
-			bo, ok := in.(*ssa.BinOp)
-			if !ok || bo.Op != token.ADD {
-				return
-			}
-			if k, ok := bo.Y.(*ssa.Const); !ok || constStr(k) != "1" {
-				return
-			}
-			if !flowsToReturn(bo) {
-				return // the range index, not the count
-			}
-			incs++
-			e.GuardedFrom(r, "R05.4", "stage.(*Stage).Received: count incremented only for leading parts on record", fn,
-				FlowOpts{Classify: cls, Target: only(bo), Sticky: []string{"miss"}},
-				func(l LabelSet) bool { return l.Has("hit") && !l.Has("miss") }, "partReceived(part) == true on this iteration and no earlier part was missing")
-		})
-		r.Min("R05.4", "increments of the received count", incs, 1)
-	}
+	e.checkReceivedLeading(r, "R05.4")
 
 	// ---------------------------------------------------------------- R05.5
 	r.Rule("R05.5", "ReceiveLogger.Received has exactly one call site, in the deliverer, outside any loop")
@@ -351,7 +330,6 @@ func rulesC05(e *Engine, r *Report) {
 	r.Min("R05.8", "functions evicting from the receive cache", nEv, 1)
 }
 
-
 func nameOr(m map[string]string, k string) string {
 	if v, ok := m[k]; ok {
 		return v
@@ -388,4 +366,32 @@ func (e *Engine) fieldStoresIn(fn *ssa.Function, typ, field string) []fieldStore
 		out = append(out, fieldStore{val: e.Canon(st.Val), pos: e.InstrPos(st), lit: lit})
 	})
 	return out
+}
+
+// checkReceivedLeading: GateKeeper.Received counts only the leading parts on
+// record (the count is incremented only after partReceived == true and never
+// after a miss).
+func (e *Engine) checkReceivedLeading(r *Report, rule string) {
+	if fn := needFn(e, r, rule, "stage.(*Stage).Received"); fn != nil {
+		// the count stops at the first part that is not on record
+		cls := labeler(C("!call(stage.(*Stage).partReceived)(p0, §)", "miss"), C("call(stage.(*Stage).partReceived)(p0, §)", "hit"))
+		incs := 0
+		Instrs(fn, func(in ssa.Instruction) {
+			bo, ok := in.(*ssa.BinOp)
+			if !ok || bo.Op != token.ADD {
+				return
+			}
+			if k, ok := bo.Y.(*ssa.Const); !ok || constStr(k) != "1" {
+				return
+			}
+			if !flowsToReturn(bo) {
+				return // the range index, not the count
+			}
+			incs++
+			e.GuardedFrom(r, rule, "stage.(*Stage).Received: count incremented only for leading parts on record", fn,
+				FlowOpts{Classify: cls, Target: only(bo), Sticky: []string{"miss"}},
+				func(l LabelSet) bool { return l.Has("hit") && !l.Has("miss") }, "partReceived(part) == true on this iteration and no earlier part was missing")
+		})
+		r.Min(rule, "increments of the received count", incs, 1)
+	}
 }
